@@ -499,6 +499,9 @@ def rand_results(rng, fmt, m, decades=6):
     rs = []
     for _ in range(m):
         calls = rng.choice([2, 3, 10, 1000, 10 ** 6])
+        if rng.random() < 0.12:
+            # counters beyond 32 bits / beyond what the numeric type holds exactly (their sums must stay exact: they are integers)
+            calls = rng.choice([10 ** 9, 3 * 10 ** 9, 2 ** 32 - 1, 2 ** 32 + 5, 2 ** 31, 10 ** 12, 2 ** 53 + 1]); decades = min(decades, 2)
         e = Fraction(rng.randint(-1000, 1000), rng.choice([1, 7, 1000])) * Fraction(10) ** rng.randint(-decades, decades)
         s = Fraction(rng.randint(1, 1000), rng.choice([1, 10, 1000])) * Fraction(10) ** rng.randint(-decades, decades)
         # (value, error) -> (sum, sumsq) exactly, then rounded
